@@ -10,6 +10,7 @@ import (
 
 	"verif/internal/drv"
 	"verif/internal/enga"
+	"verif/internal/engb"
 	"verif/internal/engc"
 )
 
@@ -30,6 +31,8 @@ func main() {
 		drv.Exit(replay(os.Args[2]))
 	case "C01", "C02", "C03", "C05", "C06", "C07", "C08":
 		drv.Exit(enga.Run(os.Args[1], tier()))
+	case "C11":
+		drv.Exit(engb.Run(tier()))
 	case "C15":
 		drv.Exit(engc.RunC15(tier()))
 	case "C16":
@@ -63,6 +66,8 @@ func replay(file string) int {
 		return engc.Replay(file)
 	case "bandsim":
 		return enga.Replay(file)
+	case "gensim":
+		return engb.Replay(file)
 	}
 	drv.Broken("replay file %s names unknown engine %q", file, head.Engine)
 	return drv.ExitBroken
